@@ -65,3 +65,19 @@ package markers
 //@ method (*withMark).Unwrap
 //@   props C07 C10 C14
 //@   ensures result == self.cause
+
+//@ spec func isAnySpec(e error, refs []error) bool = exists i int :: 0 <= i && i < len(refs) && isSpec(e, refs[i])
+//@ spec func hereDirect(c error, r error) bool = (comparable(typeof(r)) && c == r) || isM2(c, r)
+
+//@ func IsAny
+//@   props C08 C13
+//@   ensures result == isAnySpec(err, references)
+//@   loop 1: invariant forall j int :: 0 <= j && j < $n ==> references[j] != nil
+//@   loop 2: invariant err != nil
+//@           invariant forall i int :: 0 <= i && i < len(references) && references[i] != nil ==> (isA(err, references[i]) <==> isA(c, references[i]))
+//@   loop 3: invariant forall j int :: 0 <= j && j < $n && references[j] != nil ==> !hereDirect(c, references[j])
+//@   loop 4: invariant forall j int :: 0 <= j && j < $n ==> !isAnySpec(causes(c)[j], references)
+//@   loop 5: invariant forall j int :: 0 <= j && j < $n && references[j] != nil ==> (exists k int :: 0 <= k && k < len(refMarks) && refMarks[k] == markOf(references[j]))
+//@           invariant forall k int :: 0 <= k && k < len(refMarks) ==> (exists j int :: 0 <= j && j < $n && references[j] != nil && refMarks[k] == markOf(references[j]))
+//@   loop 6: invariant forall i int :: 0 <= i && i < len(references) && references[i] != nil ==> (isB(err, references[i]) <==> isB(c, references[i]))
+//@   loop 7: invariant forall k int :: 0 <= k && k < $n ==> !markEq(markOf(c), refMarks[k])
